@@ -115,6 +115,23 @@ def diag_terms(ctx, rule, fi, where, got_total, mdl, i, node, names_env):
     ctx.violation(rule, fi, node, f"{where.split(' [')[0]}: total variance", f"[{where}, {label} level] differs from the model by {diff!r}"[:600])
 
 
+def ber_kernel(pkg):
+    """the function that computes one operating point of utils.theory_BER: the vectorised inner function, or - when that only
+    forwards its arguments - the package function it forwards them to"""
+    fi = pkg.func("utils.theory_BER.<locals>.temp")
+    for _ in range(3):
+        body = [s_ for s_ in fi.node.body if not (isinstance(s_, ast.Expr) and isinstance(s_.value, ast.Constant))]
+        if len(body) == 1 and isinstance(body[0], ast.Return) and isinstance(body[0].value, ast.Call):
+            r = pkg.resolve_expr(fi.module, fi, body[0].value.func)
+            if r and r.startswith("opticomlib.") and r.count(".") == 2:
+                nxt = pkg.module(r.split(".")[1]).funcs.get(r.split(".", 1)[1])
+                if nxt is not None:
+                    fi = nxt
+                    continue
+        break
+    return fi
+
+
 def rule_receiver_model(ctx):
     pkg = ctx.pkg
     f0_w = CC / S("wavelength")
@@ -171,7 +188,7 @@ def rule_receiver_model(ctx):
                 else:
                     diag_terms(ctx, "C13.2", fi_n, f"noise_variances [{case}]", Sv[i], m, i, rets[0].node, None)
     # ---- inner function of theory_BER
-    fi_t = pkg.func("utils.theory_BER.<locals>.temp")
+    fi_t = ber_kernel(pkg)
     for modn, amp in itertools.product(("ook", "ppm"), (True, False)):
         M = Form.num(2) if modn == "ook" else S("M")
         m = model(amp, M, S("f0"))
@@ -351,7 +368,7 @@ def rule_error_probabilities(ctx):
            or (isinstance(n, ast.FunctionDef) and any("vectorize" in src_of(d) for d in n.decorator_list))]
     ctx.check("C13.7", len(vec) >= 2, fi, fi.node, "ppm.theory_BER kernels are np.vectorize'd", "element-wise for both decisions", "a decision kernel is not vectorised")
     # ---------------- utils.theory_BER kernels
-    fi = pkg.func("utils.theory_BER.<locals>.temp")
+    fi = ber_kernel(pkg)
     for modn, dec in (("ook", None), ("ppm", "hard"), ("ppm", "soft")):
         ass = {"modulation": modn, "amplify": False, "threshold": None, "G": "none", "NF": "none", "BW_opt": "none"}
         if dec:
@@ -452,7 +469,7 @@ def rule_device_counterparts(ctx):
     fi = pkg.func("devices.PD")
     it = Interp(pkg, assumptions={"include_noise": "all", "input.noise": "none", "input.n_pol": 1}, param_classes={"input": "optical_signal"})
     it.run(fi)
-    normals = [r for r in it.calls if r.callee == "numpy.random.normal" and r.depth == 0]
+    normals = [r for r in it.calls if r.callee == "numpy.random.normal"]     # at any depth: the draw may sit in a private helper or closure
     ren = {"R_load": S("R_L"), "gv.fs": 2 * S("BW_el"), "Fn": S("NF_el")}
     sub = lambda f: f.subst(lambda a: ren.get(a[1]) if a[0] == "sym" else None)
     th_model = 4 * KB * S("T") * S("BW_el") * S("R_L") * mk_fn("exp10", [S("NF_el") / 10])
@@ -536,7 +553,7 @@ def run(ctx):
     rule_error_probabilities(ctx)
     rule_optimum_threshold(ctx)
     rule_device_counterparts(ctx)
-    _q_guard(ctx, ctx.pkg.func("utils.theory_BER.<locals>.temp"), "C13.7", assumptions={"modulation": "ppm", "decision": "hard", "threshold": None, "amplify": False}, min_m=2)
+    _q_guard(ctx, ber_kernel(ctx.pkg), "C13.7", assumptions={"modulation": "ppm", "decision": "hard", "threshold": None, "amplify": False}, min_m=2)
     check_late_binding(ctx, "C13.8", ["utils.theory_BER", "utils.noise_variances", "utils.average_voltages", "utils.p_ase", "utils.optimum_threshold", "ook.theory_BER", "ook.THRESHOLD_EST", "ook.BER_analizer", "ppm.theory_BER", "ppm.THRESHOLD_EST", "ppm.BER_analizer"])
     ctx.require_min("C13.2", 20)
     ctx.require_min("C13.3", 14)
